@@ -322,6 +322,24 @@ pub fn boundary_families(full: bool) -> Vec<(String, String)> {
             push("bf:flowkey-span-plain", format!("{{k{}{pad}: v}}\n", "\n".repeat(b)));
         }
     }
+    // flow collections made of short entries with lone indicators ("?" alone, ": v", "? : v", "a:", properties alone):
+    // every sequence of 1..3 entries in a flow mapping and a flow sequence, with and without a trailing comma
+    {
+        let items = ["?", "? a", "a", "a: b", ": b", "? : b", "? a : b", "a:", "&x", "!t", "\"q\": r", "? &y"];
+        for (o, c) in [("{", "}"), ("[", "]")] {
+            for a in items {
+                push("bf:flow-items1", format!("{o} {a} {c}\n"));
+                push("bf:flow-items1", format!("{o} {a} , {c}\n"));
+                for b in items {
+                    push("bf:flow-items2", format!("{o} {a} , {b} {c}\n"));
+                    push("bf:flow-items2", format!("k: {o}{a}, {b},{c}\n"));
+                    for d in ["?", "a: b", ": b", "a"] {
+                        push("bf:flow-items3", format!("{o} {a} , {b} , {d} {c}\n"));
+                    }
+                }
+            }
+        }
+    }
     // inputs ending after every token kind, with and without final break
     for t in ["a", "- a", "- ", "-", "k:", "k: v", "? k", "? ", ": v", "[a", "[a,", "[a]", "{a", "{a: b", "{a: b}", "&a", "&a b", "*a", "!t", "!!str a", "|", ">", "|+", "|-", ">2", "'a'", "'a", "\"a\"", "\"a", "\"a\\", "---", "--- a", "...", "%YAML 1.2", "%TAG ! x", "# c", "a #c", "a:", "a: |", "- |", "- >-", "k: |2", "k: &a", "k: !t", "k: *a"] {
         push("bf:ending", t.to_string());
